@@ -324,11 +324,14 @@ impl<'a> TypeEncoder<'a> {
             // interface's export and the using entity's own item) so a later
             // id-keyed reference reuses it instead of re-encoding a local copy:
             // a type import must reference a named type, not a local definition.
+            //
+            // An index the scope already has for the type is kept: the aliases made for a
+            // nested instance type must not redirect the enclosing scope's own items.
             if let ItemKind::Type(ty) = kind {
-                state.current.type_indexes.insert(*ty, index);
+                state.current.type_indexes.entry(*ty).or_insert(index);
             }
             if let Some(ItemKind::Type(ty)) = items.get(name) {
-                state.current.type_indexes.insert(*ty, index);
+                state.current.type_indexes.entry(*ty).or_insert(index);
             }
         }
     }
